@@ -96,6 +96,9 @@ static void call_gssvx(const xcase_t *c, xstate_t *st, int fact, const ldc *Bin,
     st->opt.nprocs = c->nprocs; st->opt.fact = fact; st->opt.trans = c->trans; st->opt.refact = NO; st->opt.panel_size = c->w; st->opt.relax = c->relax;
     st->opt.diag_pivot_thresh = c->u; st->opt.drop_tol = 0; st->opt.usepr = NO; st->opt.SymmetricMode = NO; st->opt.PrintStat = NO; st->opt.work = NULL; st->opt.lwork = 0;
     superlu_memusage_t mu; int_t info = -999; real_t rpg = -1, rcond = -1;
+    /* equed, R, C are OUTPUTS unless fact = FACTORED: enter with stale values, as a caller who reuses the variables of an earlier call does
+       (added after seeded change C07/3 was missed) */
+    if (fact != FACTORED) { st->equed = (equed_t)(1 + (int)((c->bits + (unsigned)c->salt + (unsigned)c->scal) % 3)); for (int i = 0; i < n; i++) { st->R[i] = (real_t)7; st->C[i] = (real_t)0.125; } }
     vf_xerbla_calls = 0;
     pXgssvx(c->nprocs, &st->opt, &st->am.A, st->perm_c, st->perm_r, &st->equed, st->R, st->C, &st->L, &st->U, &B, &X, &rpg, &rcond, r->ferr, r->berr, &mu, &info);
     r->info = (int)info; r->equed = st->equed; r->rpg = rpg; r->rcond = rcond;
